@@ -17,6 +17,10 @@ class Obligation:
         self.instances = []      # dicts: instance, status, site, detail
 
 
+SHAPE_BOUND = {'C11.SIG.1', 'C12.SIG.1', 'C11.PRV.1', 'C12.SHR.1', 'C11.PRV.2', 'C12.GRD.1', 'C13.GRD.3', 'C11.TBL.1', 'C13.LOP.1', 'C13.GRD.1',
+               'C08.LOP.1', 'C17.PRV.1', 'C17.LOP.2', 'C15.PRV.1', 'C19.LOP.2', 'C10.PRV.1', 'C10.PRV.2', 'C18.MPT.2', 'C03.LOP.1', 'C01.SIB.1'}
+
+
 class Run:
     def __init__(self, prop, program, tier='quick', evidence_dir=None, quiet=False):
         self.prop = prop
@@ -58,6 +62,28 @@ class Run:
 
     def fail(self, oid, instance, function, construct, what, site='', witness=None):
         """an undischarged obligation instance: violation unless listed as a known finding"""
+        # A few rules on the LVS compiler read one function as a whole (how a key text / a graph / a numbering is built up). When that function now
+        # calls helpers that did not exist in the reference tree and could not be expanded in place (used inside a comprehension, generators, pairs
+        # of results), the rule sees an incomplete picture: what it misses may stand in the helper. That is "cannot read" (exit 2), not a verdict.
+        if oid in SHAPE_BOUND and isinstance(function, str) and function in self.P.funcs:
+            try:
+                from .rules.common import new_callees
+                from .flow import ctx_of
+                helpers = new_callees(self, ctx_of(self.P, function))
+            except Exception:
+                helpers = []
+            import ast as _ast
+            import re as _re
+            fnode = self.P.funcs[function].node
+            expanded = any(type(x).__name__ == 'InlineBlock' or (isinstance(x, _ast.Name) and _re.search(r'__h\d+$', x.id)) for x in _ast.walk(fnode))
+            if expanded and not helpers:
+                self.defer(f'{oid} on {function.rsplit(".", 1)[1]}: the function was rebuilt around new helpers (expanded in place) and is not in a form this '
+                           f'rule reads; "{what[:90]}" is not a verdict')
+                return
+            if helpers:
+                self.defer(f'{oid} on {function.rsplit(".", 1)[1]}: part of the function now lives in new helper(s) that could not be expanded '
+                           f'({", ".join(h.qual.rsplit(".", 1)[1] for h in helpers[:3])}); "{what[:90]}" is not a verdict')
+                return
         rule = oid.split('.', 1)[1] if '.' in oid else oid
         rec = {'property': self.prop, 'rule': rule, 'obligation': oid, 'instance': instance,
                'function': function, 'construct': norm(construct), 'what': what, 'site': site,
